@@ -349,6 +349,7 @@ Value Search::search(Position& position, Depth depth, Value alpha, Value beta,
     const bool PV_NODE = beta != alpha + 1;
     const bool IS_NULL = (info - 1)->_current_move == NO_MOVE;
     VERIF_POINT("node", info->_ply, depth);
+    VERIF_POINT("window", alpha, beta);
 
     LOG_DEBUG("[%d] ENTER SEARCH depth=%d alpha=%ld beta=%ld pvNode=%d fen=%s",
               info->_ply, depth, alpha, beta, static_cast<int>(PV_NODE), position.fen().c_str());
@@ -675,6 +676,7 @@ Value Search::quiescence_search(Position& position, Depth depth, Value alpha,
 
     const bool PV_NODE = beta != alpha + 1;
     VERIF_POINT("qnode", info->_ply, depth);
+    VERIF_POINT("window", alpha, beta);
 
     LOG_DEBUG("[%d] ENTER QUIESCENCE_SEARCH depth=%d alpha=%ld beta=%ld isPV=%d fen=%s",
               info->_ply, depth, alpha, beta, static_cast<int>(PV_NODE), position.fen().c_str());
